@@ -2504,60 +2504,38 @@ impl SecureDiscovery {
       }
     };
 
-    // Shortcut: if the remote is actually our endpoint, set tokens directly (no
-    // need to send then to the network)
+    // Create the volatile message containing the tokens
+    let vol_msg = if remote_is_writer {
+      // Our local endpoint is a reader
+      self.new_volatile_message(
+        GMCLASSID_SECURITY_DATAREADER_CRYPTO_TOKENS,
+        key_exchange_writer.guid(),
+        local_endpoint_guid,
+        remote_endpoint_guid.prefix,
+        remote_endpoint_guid,
+        &crypto_tokens,
+      )
+    } else {
+      // Our local endpoint is a writer
+      self.new_volatile_message(
+        GMCLASSID_SECURITY_DATAWRITER_CRYPTO_TOKENS,
+        key_exchange_writer.guid(),
+        local_endpoint_guid,
+        remote_endpoint_guid.prefix,
+        remote_endpoint_guid,
+        &crypto_tokens,
+      )
+    };
+
+    // Shortcut: if the remote is actually our endpoint, there is no need to send
+    // the tokens to the network. Handle them like received ones: they are the
+    // tokens of `local_endpoint_guid`, meant for `remote_endpoint_guid`, and they
+    // are stored for later, if that one has not yet registered its counterpart.
     let remote_is_us = remote_endpoint_guid.prefix == self.local_participant_guid.prefix;
     if remote_is_us {
-      let set_res = if remote_is_writer {
-        self
-          .security_plugins
-          .get_plugins()
-          .set_remote_writer_crypto_tokens(remote_endpoint_guid, local_endpoint_guid, crypto_tokens)
-      } else {
-        self
-          .security_plugins
-          .get_plugins()
-          .set_remote_reader_crypto_tokens(remote_endpoint_guid, local_endpoint_guid, crypto_tokens)
-      };
-
-      if let Err(e) = set_res {
-        create_security_error_and_log!(
-          "Failed to set our own crypto tokens as remote tokens: {}. Guid: {:?}",
-          e,
-          remote_endpoint_guid
-        );
-        return;
-      } else {
-        debug!(
-          "Set our own crypto tokens as remote tokens. Guid: {:?}",
-          remote_endpoint_guid
-        );
-      }
+      self.volatile_message_secure_read(&vol_msg);
     } else {
       // It's a real remote, send tokens over the network
-
-      // Create the volatile message containing the tokens
-      let vol_msg = if remote_is_writer {
-        // Our local endpoint is a reader
-        self.new_volatile_message(
-          GMCLASSID_SECURITY_DATAREADER_CRYPTO_TOKENS,
-          key_exchange_writer.guid(),
-          local_endpoint_guid,
-          remote_endpoint_guid.prefix,
-          remote_endpoint_guid,
-          &crypto_tokens,
-        )
-      } else {
-        // Our local endpoint is a writer
-        self.new_volatile_message(
-          GMCLASSID_SECURITY_DATAWRITER_CRYPTO_TOKENS,
-          key_exchange_writer.guid(),
-          local_endpoint_guid,
-          remote_endpoint_guid.prefix,
-          remote_endpoint_guid,
-          &crypto_tokens,
-        )
-      };
       if let Err(e) = self.send_key_exchange_message(key_exchange_writer, &vol_msg) {
         create_security_error_and_log!(
           "Failed to send local endpoint {:?} crypto tokens to {:?}: {e}. Trying again later.",
